@@ -200,3 +200,4 @@ BOUNDS = dict(
     indices="all integers in [-m, m) x [-n, n); 12 slice / index-array pairs per tree (thorough: +60 start/stop/step combinations incl. negative "
     "and empty); single-selector row slices; 3 list pairs", operands="complex128 (and float64) 2-column right operands and left vectors "
     "applied to every sub-operator", values="all payloads symbolic")
+BOUNDS["added"] = 'off-diagonal blocks of annotated operators whose selectors coincide only after clipping'
